@@ -35,7 +35,7 @@ def show(a):
 
 
 EXPR_HEADS = {"const", "col", "cmp", "distinct", "and", "or", "not", "isnull", "arith", "neg", "case", "inlist",
-              "exists", "insub", "scalar"}
+              "exists", "insub", "scalar", "quant"}
 
 
 def map_expr(e, fq, depth=0, fcol=None):
@@ -67,6 +67,8 @@ def map_expr(e, fq, depth=0, fcol=None):
         return [h, e[1], fq(e[2], depth)]
     if h == "insub":
         return [h, e[1], map_expr(e[2], fq, depth, fcol), fq(e[3], depth)]
+    if h == "quant":
+        return [h, e[1], e[2], map_expr(e[3], fq, depth, fcol), fq(e[4], depth)]
     if h == "scalar":
         return [h, fq(e[1], depth)]
     raise ValueError(show(e))
@@ -95,6 +97,8 @@ def map_children(e, fe, fq):
         return [h, e[1], fq(e[2])]
     if h == "insub":
         return [h, e[1], fe(e[2]), fq(e[3])]
+    if h == "quant":
+        return [h, e[1], e[2], fe(e[3]), fq(e[4])]
     if h == "scalar":
         return [h, fq(e[1])]
     raise ValueError(show(e))
@@ -243,6 +247,39 @@ def gs_empty(b):
 
 # ---- known-deviation classes as rewrites -------------------------------------------------------
 
+NEGOP = {"eq": "ne", "ne": "eq", "lt": "ge", "ge": "lt", "gt": "le", "le": "gt"}
+
+
+def _quant_exists(op, a, q, wrap=None):
+    a2 = shift_expr(a, 1, 0)
+    c = ["cmp", op, a2, ["col", "0", "0"]]
+    if wrap:
+        c = wrap(c)
+    return ["exists", "0", ["select", ["fq", q], c, "-", "-", [["const", ["b", "1"]]], "0"]]
+
+
+def quant_expand(e):
+    """(quant any|all op a q): pseudo-node of the generator for `a op ANY|ALL (q)`; SQL's three-valued
+    definition in terms of constructs of the reference semantics:
+      a op ANY q = TRUE if some row compares TRUE, else NULL if some comparison is NULL, else FALSE
+      a op ALL q = NOT (a negop ANY q)"""
+    if e[0] != "quant":
+        return e
+    kind, op, a, q = e[1], e[2], e[3], e[4]
+    if kind == "all":
+        return ["not", quant_expand(["quant", "any", NEGOP[op], a, q])]
+    t, f, n = ["const", ["b", "1"]], ["const", ["b", "0"]], ["const", "N"]
+    return ["case", [[_quant_exists(op, a, q), t],
+                     [_quant_exists(op, a, q, lambda c: ["isnull", "0", c]), n]], f]
+
+
+def expand_text(sx):
+    """replace the generator's pseudo-nodes by constructs the extracted semantics knows"""
+    if "(quant " not in sx:
+        return sx
+    return show(rewrite_query(parse(sx), quant_expand))
+
+
 def in2v(e):
     """engine: `a [NOT] IN (subquery)` is two-valued (mark join): TRUE iff some row equals a, never NULL.
     = [NOT] EXISTS (SELECT 1 FROM (sub) s WHERE s.c0 = a)"""
@@ -251,6 +288,12 @@ def in2v(e):
         a2 = shift_expr(a, 1, 0)
         return ["exists", neg, ["select", ["fq", q], ["cmp", "eq", ["col", "0", "0"], a2], "-", "-",
                                 [["const", ["b", "1"]]], "0"]]
+    if e[0] == "quant":
+        # same mark join: `a op ANY (q)` is TRUE iff some row compares TRUE, never NULL; ALL = NOT (negop ANY)
+        kind, op, a, q = e[1], e[2], e[3], e[4]
+        if kind == "all":
+            return ["not", _quant_exists(NEGOP[op], a, q)]
+        return _quant_exists(op, a, q)
     return e
 
 
@@ -274,6 +317,8 @@ def query_correlated(q, cutoff=0):
                     walk_q(x[2], c)
                 elif h == "insub":
                     walk_e(x[2], c); walk_q(x[3], c)
+                elif h == "quant":
+                    walk_e(x[3], c); walk_q(x[4], c)
                 elif h == "scalar":
                     walk_q(x[1], c)
                 elif h == "case":
@@ -504,6 +549,11 @@ def apply_rewrite(q, fe):
 
 def variants(sx):
     """{class id: rewritten query text} for the classes whose rewrite changes the query"""
+    out = _variants(sx)
+    return {k: expand_text(v) for k, v in out.items()}
+
+
+def _variants(sx):
     q = parse(sx)
     out = {}
     for cid, fe in KNOWN_REWRITES.items():
